@@ -50,6 +50,7 @@ class Engine:
         self.side_counter: Dict[str, int] = {}
         self.finding_ctx: Optional[str] = None
         self.notes: List[str] = []
+        self.cur_props: Optional[List[str]] = None   # property tags of the obligations being generated (default: self.props)
         self.concrete: Optional[dict] = None   # replay mode: name -> z3 value taken from a counter-model
 
     # ------------------------------------------------------------------ paths
@@ -122,8 +123,15 @@ class Engine:
     def fresh(self, name: str, sort=None):
         self.fresh_n += 1
         nm = "%s!%d" % (name, self.fresh_n)
-        if self.concrete is not None and nm in self.concrete:
-            return self.concrete[nm]
+        if self.concrete is not None:      # replay: the counter-model's value (don't-care inputs: 0 / false)
+            if nm in self.concrete:
+                return self.concrete[nm]
+            if sort is None or (isinstance(sort, str) and sort == "bv"):
+                return z3.BitVecVal(0, BVW)
+            if isinstance(sort, str) and sort == "int":
+                return z3.IntVal(0)
+            if isinstance(sort, str) and sort == "bool":
+                return z3.BoolVal(False)
         if sort is None or (isinstance(sort, str) and sort == "bv"):
             return z3.BitVec(nm, BVW)
         if isinstance(sort, str) and sort == "int":
@@ -134,7 +142,8 @@ class Engine:
 
     # ------------------------------------------------------------ obligations
     def oblige(self, label: str, goal, kind: str = "post", finding: Optional[str] = None,
-               expect: str = "valid", meta: Optional[dict] = None, timeout_s: float = 0.0) -> None:
+               expect: str = "valid", meta: Optional[dict] = None, timeout_s: float = 0.0,
+               props: Optional[List[str]] = None) -> None:
         if isinstance(goal, bool):
             goal = z3.BoolVal(goal)
         self.labels_seen[label] = self.labels_seen.get(label, 0) + 1
@@ -145,7 +154,8 @@ class Engine:
             oid += "#%d" % n
         o = _obl.make(oid, kind, self.func, self.where, self.pc, goal, expect=expect, scope=self.scope,
                       finding=finding or self.finding_ctx,
-                      meta=dict(meta or {}, props=self.props, label=label), timeout_s=timeout_s)
+                      meta=dict(meta or {}, props=props or self.cur_props or self.props, label=label),
+                      timeout_s=timeout_s)
         self.obls.append(o)
 
     def side(self, kind: str, goal, what: str = "") -> None:
